@@ -416,7 +416,11 @@ func scenUpdates(e *Env, args []string, r *rand.Rand) {
 	n := atoi(m["n"], 20)
 	veto := atoi(m["veto"], 0)
 	lhold := uint16(atoi(m["hold"], 90))
-	p := e.addPeer(1, PeerOpts{LocalAS: localAS, RemoteAS: remoteAS, Hold: lhold, Passive: dir == "in", IdleHold: 5 * time.Second})
+	ihold := 5 * time.Second
+	if m["second"] == "1" {
+		ihold = 50 * time.Millisecond
+	}
+	p := e.addPeer(1, PeerOpts{LocalAS: localAS, RemoteAS: remoteAS, Hold: lhold, Passive: dir == "in", IdleHold: ihold})
 	if veto > 0 {
 		p.plugin.HandlerVeto = veto
 		p.plugin.VetoNotif = &bgp.Notification{Code: 3, Subcode: 9, Data: []byte{7}}
@@ -429,11 +433,45 @@ func scenUpdates(e *Env, args []string, r *rand.Rand) {
 	// end=fin | badhdr: the remote half-closes (or sends a faulty header) directly behind the last UPDATE: every
 	// UPDATE it sent before that must still be delivered
 	end := m["end"]
+	// est=<ms>: OnEstablished takes that long (longer than the negotiated hold time of 3 s); the UPDATEs travel in
+	// the same write as the KEEPALIVE that establishes the session, so they are parked in the reader when the hold
+	// timer fires: the session either expires or delivers every one of them, in order
+	est := atoi(m["est"], 0)
 	e.serve()
-	c := p.bring(dir, "established", 90, remoteID)
+	var c *Conn
+	if m["second"] == "1" {
+		// an earlier session of the same peer (dir=out: of the same FSM object) carried one UPDATE and was ended by the
+		// remote with a Cease; what follows is the next session
+		veto0 := p.plugin.HandlerVeto
+		p.plugin.HandlerVeto = 0
+		c0 := p.bring(dir, "established", 90, remoteID)
+		if c0 != nil {
+			c0.send(wire.Update([]byte{0, 0, 0, 0}))
+			time.Sleep(20 * time.Millisecond)
+			c0.send(wire.Notification(6, 2, nil))
+			c0.waitEnd(stepWait)
+			p.waitEv(0, stepWait, "cb.exit", "OnClose")
+		}
+		p.plugin.mu.Lock()
+		p.plugin.HandlerVeto = veto0
+		if veto0 > 0 {
+			p.plugin.HandlerVeto = veto0 + len(p.plugin.delivered)
+		}
+		p.plugin.mu.Unlock()
+		p.mark = e.tr.len()
+	}
+	if est > 0 {
+		p.plugin.EstDelay = time.Duration(est) * time.Millisecond
+		c = p.bring(dir, "openConfirm", 3, remoteID)
+	} else {
+		c = p.bring(dir, "established", 90, remoteID)
+	}
 	if c != nil {
 		var stream []byte
 		nupd := 0
+		if est > 0 {
+			stream = append(stream, wire.Keepalive()...)
+		}
 		for i := 0; i < n; i++ {
 			if r.Intn(5) == 0 {
 				stream = append(stream, wire.Keepalive()...)
@@ -456,7 +494,7 @@ func scenUpdates(e *Env, args []string, r *rand.Rand) {
 		// random partition into writes: 1-byte writes, writes spanning several messages, …
 		var segs []int
 		mode := r.Intn(4)
-		if end != "" {
+		if end != "" || est > 0 {
 			mode = 1 // large writes: the reader must be able to get ahead of the (slow) handler
 		}
 		for rem := len(stream); rem > 0; {
@@ -509,12 +547,18 @@ func scenUpdates(e *Env, args []string, r *rand.Rand) {
 		if ve := atoi(m["echo"], 0); ve > 0 && ve <= nupd {
 			want = ve
 		}
-		deadline := time.Now().Add(5 * time.Second)
+		deadline := time.Now().Add(5*time.Second + time.Duration(est)*time.Millisecond)
 		for time.Now().Before(deadline) {
 			p.plugin.mu.Lock()
 			got := len(p.plugin.delivered)
 			p.plugin.mu.Unlock()
 			if got >= want {
+				break
+			}
+			c.mu.Lock()
+			ended := c.ended
+			c.mu.Unlock()
+			if est > 0 && ended != "" {
 				break
 			}
 			time.Sleep(time.Millisecond)
@@ -675,6 +719,12 @@ func init() {
 		// negotiated hold time 0 (no hold timer); a handler slower than it is polite to be
 		out = append(out, "writers:in:k=3:n=300:end=veto:inside=0:pause=1:adv=1:ms=120:i=0", "writers:in:k=3:n=300:end=veto:inside=0:pause=1:adv=1:ms=150:i=1")
 		out = append(out, "updates:out:n=12:hold=0:k=h0", "updates:in:n=12:hold=0:end=fin:k=h1", "updates:out:n=5:slow=300000:hold=3:k=h2")
+		// the handler ends the second session of a peer (of a reused outbound FSM)
+		out = append(out, "updates:out:n=12:veto=3:second=1:k=s0", "updates:in:n=12:veto=2:second=1:k=s1", "updates:out:n=9:end=fin:slow=200:second=1:k=s2")
+		// the hold timer fires while OnEstablished is still busy and UPDATEs are parked in the reader
+		for i := 0; i < 8; i++ {
+			out = append(out, fmt.Sprintf("updates:%s:n=%d:hold=3:est=3200:k=e%d", []string{"out", "in"}[i%2], 4+i, i))
+		}
 		return out
 	}
 }
